@@ -8,6 +8,16 @@
    byte for byte. *)
 From UV Require Export Base.Common Model.Padding Model.Marshal.
 
+(* Compact byte-string literals for the case files: [hx n x] is the n-byte
+   big-endian representation of x (the runner writes x as one hexadecimal
+   numeral; parsing a list of a thousand numerals per case is far slower). *)
+Fixpoint hx_go (k : nat) (x : N) (acc : bytes) : bytes :=
+  match k with
+  | O => acc
+  | S k' => hx_go k' (N.shiftr x 8) (N.land x 255 :: acc)
+  end.
+Definition hx (n : N) (x : N) : bytes := hx_go (N.to_nat n) x [].
+
 Inductive cpol :=
 | CPNone                       (* GetPaddingLen == nil *)
 | CPBoring                     (* BoringPaddingStyle *)
